@@ -102,22 +102,27 @@ impl FinalizedDirectoryPackCreator {
 
         let mut buffered = BufWriter::new(file);
 
+        // What is stored in the pack is relative to the start of the pack.
+        let in_pack = |pos: SizedOffset| {
+            SizedOffset::new(pos.size, (pos.offset.into_u64() - origin_offset).into())
+        };
+
         info!("----- Write indexes -----");
         let mut indexes_offsets = vec![];
         for index in &mut self.indexes {
-            indexes_offsets.push(index.write(&mut buffered)?);
+            indexes_offsets.push(in_pack(index.write(&mut buffered)?));
         }
 
         info!("----- Write entry_stores -----");
         let mut entry_stores_offsets = vec![];
         for mut entry_store in self.entry_stores {
-            entry_stores_offsets.push(entry_store.write(&mut buffered)?);
+            entry_stores_offsets.push(in_pack(entry_store.write(&mut buffered)?));
         }
 
         info!("----- Write value_stores -----");
         let mut value_stores_offsets = vec![];
         for value_store in &self.value_stores {
-            value_stores_offsets.push(value_store.write().unwrap().write(&mut buffered)?);
+            value_stores_offsets.push(in_pack(value_store.write().unwrap().write(&mut buffered)?));
         }
 
         info!("----- Write indexes offsets -----");
